@@ -277,6 +277,11 @@ pub enum SinkKind {
 pub struct ProgCfg {
     pub video: Option<VideoCfg>,
     pub audio: Option<AudioCfg>,
+    /// earlier builder calls that the later ones above replace (a setter: the last call wins)
+    #[serde(default)]
+    pub video_prior: Option<VideoCfg>,
+    #[serde(default)]
+    pub audio_prior: Option<AudioCfg>,
     /// None = builder default (on)
     pub fast_start: Option<bool>,
     pub meta: Option<MetaCfg>,
@@ -571,6 +576,10 @@ pub struct Vp9Cfg {
     pub full_range_flag: u8,
 }
 
+fn default_fps() -> F {
+    F(30.0)
+}
+
 #[derive(Clone, Debug, PartialEq, Serialize, Deserialize)]
 pub struct FragCfg {
     /// true: through MuxerBuilder::new_with_fragment; false: FragmentConfig directly
@@ -580,6 +589,9 @@ pub struct FragCfg {
     pub height: u32,
     pub timescale: u32,
     pub fragment_duration_ms: u32,
+    /// frame rate handed to MuxerBuilder::video (builder path only)
+    #[serde(default = "default_fps")]
+    pub fps: F,
     pub sps: Option<Hex>,
     pub pps: Option<Hex>,
     pub vps: Option<Hex>,
